@@ -73,6 +73,14 @@ func init() {
 			}
 			return map[string]any{"reject": m[1]}
 		}
+		if _, listed := op["raw"].(map[string]any)["feeds"]; listed {
+			/* the feeds as the program will open them: each feed's sources in the order kept */
+			parsed := map[string]any{}
+			for name, srcs := range c.Feeds {
+				parsed[name] = toAnyList(srcs)
+			}
+			op["feeds_parsed"] = parsed
+		}
 		return configResult(c)
 	}
 	/* op "hook": runs the real openExternally with a dump program as hook[0] */
@@ -231,7 +239,23 @@ func genC19(r *rand.Rand, n int, emit func(Op)) {
 			b.WriteString("this is not toml\n")
 			expect = "toml"
 		case 4:
-			b.WriteString("[feeds]\nhome = [\"@a@b.example\"]\n")
+			/* feeds: sources in an order that is not the sorted one, a source listed twice, one feed
+			   or several */
+			pool := []string{"@zoe@z.example", "@a@b.example", "https://m.example/users/m", "https://a.example/users/a", "https://z.example/outbox", "/home/u/saved.json", "@a@b.example"}
+			feeds := map[string]any{}
+			b.WriteString("[feeds]\n")
+			for _, name := range []string{"home", "art", "z"}[:1+r.Intn(3)] {
+				srcs := []any{}
+				parts := []string{}
+				for k := r.Intn(5); k > 0; k-- {
+					src := pick(r, pool)
+					srcs = append(srcs, src)
+					parts = append(parts, tomlString(src))
+				}
+				feeds[name] = srcs
+				b.WriteString(name + " = [" + strings.Join(parts, ", ") + "]\n")
+			}
+			raw["feeds"] = feeds
 		}
 		op := Op{"op": "config", "toml": b.String(), "raw": raw, "expect": expect}
 		if expect == "" && r.Intn(8) == 0 {
